@@ -209,10 +209,14 @@ def run(ctx, R, tier):
     R.check(rcfg.guarded(rcfg.exit, lambda e: edge_has_fact(e, too_large(False))), "C06-R4", "receiver|size-check-dominates",
             "a ReceivingMessage is constructed only on the false edge of size > MAX_MESSAGE_SIZE", rcv.loc(),
             "a header declaring more than MAX_MESSAGE_SIZE bytes is accepted")
-    size_tests = [n for n in rcfg.nodes if n.kind == "test" and any(too_large(True)(a, True) for a, _ in facts_of(n.ast.test, True))]
+    from ..engine.guards import strip_not
+
+    def size_atoms(test):
+        return [a for a, pl in facts_of(test, True) + facts_of(test, False) if too_large(True)(a, True)]
+    size_tests = [n for n in rcfg.nodes if n.kind == "test" and size_atoms(n.ast.test)]
     ok = bool(size_tests)
     if ok:
-        left = size_tests[0].ast.test.left if isinstance(size_tests[0].ast.test, ast.Compare) else None
+        left = size_atoms(size_tests[0].ast.test)[0].left
         ok = left is not None and {unparse(x) for x in ast.walk(left) if isinstance(x, ast.Attribute)} >= {"self.data_size", "self.annotations_size"}
     R.check(ok, "C06-R4", "receiver|checks-sum", "the receiver compares data_size + annotations_size with the limit", rcv.loc(),
             "the receiver's size check does not cover both length fields")
@@ -222,7 +226,7 @@ def run(ctx, R, tier):
     ok = len(ctor) == 1 and all(any(rscfg.dominates(x, b) for x in ctx.node_of(rs, ctor[0])) for b in body_nodes)
     R.check(ok, "C06-R4", "recv_stub|header-before-body", "the header is parsed (and size-checked) before any body byte is read", rs.loc(recvs[2]),
             "recv_stub reads the body before the header's declared sizes were checked")
-    s_tests = [n for n in scfg.nodes if n.kind == "test" and any(too_large(True)(a, True) for a, _ in facts_of(n.ast.test, True))]
+    s_tests = [n for n in scfg.nodes if n.kind == "test" and size_atoms(n.ast.test)]
     pack_nodes = ctx.node_of(snd, hdr_pack[0])
     ok = bool(s_tests) and all(scfg.guarded(pn, lambda e: edge_has_fact(e, too_large(False))) for pn in pack_nodes)
     R.check(ok, "C06-R4", "sender|size-check-dominates-pack", "the header is packed only on the false edge of total_size > MAX_MESSAGE_SIZE", snd.loc(),
@@ -232,7 +236,7 @@ def run(ctx, R, tier):
     if s_tests:
         srd = ctx.rd(snd)
         t = s_tests[0]
-        sz = t.ast.test.left
+        sz = size_atoms(t.ast.test)[0].left
         ok = True
         why = ""
         # every variable the checked size derives from must have the same reaching definitions at the check and at the pack
